@@ -38,7 +38,9 @@ STATE_MEASURE = 'distinct (path class, fault kind, compression, query kind) tupl
 SECRET = b'OUTSIDE-SECRET-'
 SEGS = ['a.txt', 'sub', 'deep', 'b.txt', 'c.bin', '..', '..', '.', '', 'root', 'root2', 'inner.txt', 'outside.txt',
         'nosuch', '%2e%2e', '%2E%2E', '..%2f', 'index.html', 'rootsecret.txt', '...', '..a', 'sp ace']
-QUERIES = ['x=1', '/../outside.txt', 'a.txt', '', '?', 'p=/a.txt&q=..']
+QUERIES = ['x=1', '/../outside.txt', 'a.txt', '', '?', 'p=/a.txt&q=..',
+           # queries that, were they taken for path segments, would lead back into the root or out of it
+           '/../root/a.txt', '/../root/', 'x/../../root/sub/b.txt', '/../../root/a.txt', 'next=/../../x', 'a/../../..']
 _real_open = builtins.open
 _fault: Dict[str, Any] = {}
 
